@@ -287,6 +287,60 @@ C04Holds(c, r, t) ==
                  ELSE LA[ln] = <<TRUE, P[Min(idx)].f, P[Min(idx)].l>>
 
 -----------------------------------------------------------------------------
+(* C12: the mappings codec against the v3 format of Vlq.tla                 *)
+SegOf(x) == [gl |-> x[1], gc |-> x[2], si |-> x[3], ol |-> x[4], oc |-> x[5], ni |-> x[6]]
+SegsOf(xs) == [i \in 1..Len(xs) |-> SegOf(xs[i])]
+
+TwoTo30 == 1073741824
+CodecDomain(segs) ==
+  /\ SortedSegs(segs)
+  /\ \A i \in 1..Len(segs) :
+       /\ segs[i].gl >= 1 /\ segs[i].gl <= TwoTo30 /\ segs[i].gc >= 0 /\ segs[i].gc <= TwoTo30
+       /\ segs[i].si >= 0 =>
+            /\ segs[i].si <= TwoTo30 /\ segs[i].ol >= 1 /\ segs[i].ol <= TwoTo30
+            /\ segs[i].oc >= 0 /\ segs[i].oc <= TwoTo30 /\ segs[i].ni <= TwoTo30
+
+RawAttr(s) == IF s.si < 0 THEN <<-1, 0, 0, -1>> ELSE <<s.si, s.ol, s.oc, s.ni>>
+RawResolve(segs, line, col) ==
+  LET i == CoverIdx(segs, line, col)
+  IN IF i = 0 THEN <<-1, 0, 0, -1>> ELSE RawAttr(segs[i])
+
+(* is xs a subsequence of ys ?                                              *)
+IsSubsequence(xs, ys) ==
+  LET step(k, y) == IF k <= Len(xs) /\ xs[k] = y THEN k + 1 ELSE k
+  IN FoldLeft(step, 1, ys) = Len(xs) + 1
+
+C12Holds(c, r) ==
+  CASE c = <<"C12", "decode_matches_format">> ->
+         WellFormedMappings(r.out.m) /\ SegsOf(r.out.dec) = DecodeMappings(r.out.m)
+    [] c = <<"C12", "roundtrip_resolves_same">> ->
+         LET input == SegsOf(r.segs)
+             dec == DecodeMappings(r.out.m)
+         IN \A i \in 1..Len(input) :
+              RawResolve(dec, input[i].gl, input[i].gc)
+                = RawResolve(input, input[i].gl, input[i].gc)
+    [] c = <<"C12", "kept_is_subsequence">> ->
+         IsSubsequence(DecodeMappings(r.out.m), SegsOf(r.segs))
+    [] c = <<"C12", "reencode_stable">> -> r.out.re = r.out.m
+    [] c = <<"C12", "decoder_matches_format">> ->
+         SegsOf(r.out.dec) = DecodeMappings(r.m)
+    [] c = <<"C12", "lines_only_first_mapped">> ->
+         LET input == SegsOf(r.segs)
+             lines == SetToSortSeq({input[i].gl : i \in {j \in 1..Len(input) : input[j].si >= 0}}, <)
+             expected == [k \in 1..Len(lines) |->
+                            LET s == input[FirstMappedIdx(input, lines[k])]
+                            IN <<s.gl, 0, s.si, s.ol, -1>>]
+             dec == IF r.out.m = <<>> THEN <<>> ELSE DecodeMappings(r.out.m[1])
+         IN /\ (r.out.m # <<>> => WellFormedMappings(r.out.m[1]))
+            /\ [k \in 1..Len(dec) |-> <<dec[k].gl, dec[k].gc, dec[k].si, dec[k].ol, dec[k].ni>>]
+                 = expected
+    [] c = <<"C12", "vlq_digits">> ->
+         /\ Len(r.out.digits) = r.hi - r.lo + 1
+         /\ \A i \in 1..Len(r.out.digits) :
+              /\ r.out.digits[i] = Digits(r.lo + i - 1)
+              /\ r.out.oc[i] = r.base + r.lo + i - 1
+
+-----------------------------------------------------------------------------
 (* which predicates apply to a record                                       *)
 TreeOf(r, st) == st.heap[r.r]
 
@@ -356,6 +410,16 @@ Checks(r, st) ==
               \cup (IF r.out.map = <<>> /\ C04Domain(TreeOf(r, st))
                       THEN {<<"C04", "no_map_means_no_original">>} ELSE {})
       [] r.op = "law" -> LawChecks(r, st)
+      [] r.op = "codec" ->
+           IF CodecDomain(SegsOf(r.segs))
+             THEN {<<"C12", "decode_matches_format">>, <<"C12", "roundtrip_resolves_same">>,
+                   <<"C12", "kept_is_subsequence">>, <<"C12", "reencode_stable">>}
+             ELSE {}
+      [] r.op = "decode" ->
+           IF WellFormedMappings(r.m) THEN {<<"C12", "decoder_matches_format">>} ELSE {}
+      [] r.op = "lines_encode" ->
+           IF CodecDomain(SegsOf(r.segs)) THEN {<<"C12", "lines_only_first_mapped">>} ELSE {}
+      [] r.op = "vlq_batch" -> {<<"C12", "vlq_digits">>}
       [] OTHER -> {}
 
 -----------------------------------------------------------------------------
@@ -445,6 +509,7 @@ Holds(c, r, st) ==
          IN LineAttrsOfOptMap(r.out.map, StreamText(chunks)) = LineAttrsOfStream(chunks)
     [] c[1] \in {"C13", "C06", "C08"} /\ r.op = "law" -> LawHolds(c, r, st)
     [] c[1] = "C04" -> C04Holds(c, r, t)
+    [] c[1] = "C12" -> C12Holds(c, r)
     [] c = <<"C09", "compose_columns">> -> ComposeColumnsOK(t, r.out.map)
     [] c = <<"C09", "compose_lines">> -> ComposeLinesOK(t, r.out.map)
     [] c = <<"C11", "map_indices_in_tables">> ->
